@@ -3,7 +3,8 @@ import PlzVerif.Model.Exec
 import PlzVerif.Generated.C30
 open PlzVerif PlzVerif.Exec PlzVerif.Proto
 
-def tm : Timing := ⟨Generated.C30.termWaitMs, Generated.C30.killWaitMs⟩
+def tm : Timing :=
+  ⟨Generated.C30.termWaitMs, Generated.C30.killWaitMs, Generated.C30.secondRoundAlways, Generated.C30.killsGroup⟩
 
 def natOf (s : String) : Option Nat :=
   match s.toNat? with
